@@ -27,6 +27,12 @@ def run_property(prop_id: str, root="/repo", tier="quick", overlay=None, only_ru
 
 
 def main(argv=None):
+    import signal
+
+    try:
+        signal.signal(signal.SIGPIPE, signal.SIG_DFL)
+    except Exception:
+        pass
     ap = argparse.ArgumentParser()
     ap.add_argument("prop")
     ap.add_argument("--thorough", action="store_true")
